@@ -167,39 +167,67 @@ def _pullback_formulas(fc, Mr: RuleResult):
         if isinstance(e, ast.Call) and isinstance(e.func, ast.Attribute) and e.func.attr == "unsqueeze":
             return eval_expr(e.func.value, env, hook)
         if isinstance(e, ast.Name):
-            if e.id in env:
-                return env[e.id]
-            if e.id == "gevecsA":
-                return S("g_vecs")
-            return None
+            return value(e.id)
         return None
-    wanted = ["gevalsA", "gaccumA", "gevalsM", "gevecsM", "gevecsM_par", "gaccumM"]
-    stmts = {}
-    for s in ast.walk(bw.node):
-        if isinstance(s, ast.Assign) and isinstance(s.targets[0], ast.Name) and s.targets[0].id in wanted:
-            stmts[s.targets[0].id] = s
-    missing = [w for w in wanted if w not in stmts]
-    if missing:
-        raise AnalysisError("C06-M: assignments %s vanished from symeig_torchfcn.backward" % missing)
+    bdefs = function_defs(bw.node)
+    atoms: List[str] = []
+    busy = set()
+
+    def value(name):
+        """normal form of a local, through its (single) definition; a local whose definition is outside the polynomial vocabulary
+        (the projected solution of the shifted system, ..) is an atom"""
+        if name in env:
+            return env[name]
+        ds = [d for d in bdefs.get(name, []) if isinstance(d, ast.AST)]
+        if len(ds) == 1 and name not in busy and name not in bw.params():
+            busy.add(name)
+            try:
+                env[name] = eval_expr(ds[0], env, hook, bw.module.source)
+                return env[name]
+            except Uninterpretable:
+                pass
+            finally:
+                busy.discard(name)
+        elif name not in bdefs or name in bw.params():
+            return None
+        atoms.append(name)
+        env[name] = S("@" + name)
+        return env[name]
+    grads_ = [c for c in ast.walk(bw.node) if isinstance(c, ast.Call) and ac.is_autograd_grad(c)]
+    cot = {}
+    for c in grads_:
+        out_ = ac._kw(c, "outputs") or (c.args[0] if c.args else None)
+        go_ = ac._kw(c, "grad_outputs")
+        if out_ is None or go_ is None:
+            continue
+        o_ = out_.elts[0] if isinstance(out_, (ast.Tuple, ast.List)) and len(out_.elts) == 1 else out_
+        g_ = go_.elts[0] if isinstance(go_, (ast.Tuple, ast.List)) and len(go_.elts) == 1 else go_
+        prod = [d for d in bdefs.get(o_.id, [])] if isinstance(o_, ast.Name) else [o_]
+        which = "A" if any(ast.unparse(d) == "A.mm(evecs)" for d in prod if isinstance(d, ast.AST)) else \
+            ("M" if any(ast.unparse(d) == "M.mm(evecs)" for d in prod if isinstance(d, ast.AST)) else None)
+        if which is not None and isinstance(g_, ast.Name):
+            cot[which] = (g_.id, c)
+    if set(cot) != {"A", "M"}:
+        Mr.undecided(bw, bw.node, "cannot find the two pull-backs d<A x, g>/d params(A) and d<M x, g>/d params(M) of symeig_torchfcn.backward (found %s)" % sorted(cot))
+        return
     try:
-        for nm in wanted:
-            env[nm] = eval_expr(stmts[nm].value, env, hook, bw.module.source)
+        acot, mcot = value(cot["A"][0]), value(cot["M"][0])
     except Uninterpretable as e:
         raise AnalysisError("C06-M: cannot normalise the pull-back formulas: %s" % e)
     g_vals = S("gbar_vals") * S("x")
-    if env["gevalsA"].eq(g_vals):
+    stA, stM = enclosing_stmt(cot["A"][1]), enclosing_stmt(cot["M"][1])
+    vec_atom = next((a_ for a_ in atoms if acot is not None and (acot - g_vals).eq(S("@" + a_))), None)
+    if vec_atom is not None:
         Mr.ok(bw.fq, "eigenvalue contribution g_vals == gbar_vals (row-broadcast) * x")
+        Mr.ok(bw.fq, "A pull-back cotangent == g_vals + g_vecs (g_vecs = `%s`)" % vec_atom)
     else:
-        Mr.bad(bw, stmts["gevalsA"], "the eigenvalue contribution must be grad_evals.unsqueeze(-2) * evecs: normal form %r" % env["gevalsA"])
-    if env["gaccumA"].eq(g_vals + S("g_vecs")):
-        Mr.ok(bw.fq, "A pull-back cotangent == g_vals + g_vecs")
-    else:
-        Mr.bad(bw, stmts["gaccumA"], "the cotangent of A.mm(evecs) must be g_vals + g_vecs: normal form %r" % env["gaccumA"])
-    exp = -S("lam") * (g_vals + S("g_vecs")) - C("1/2") * S("IP") * S("x")
-    if env["gaccumM"].eq(exp):
+        Mr.bad(bw, stA, "the cotangent of A.mm(evecs) must be grad_evals.unsqueeze(-2) * evecs + <projected solution of the shifted system>: normal form %r" % (acot,))
+        return
+    exp = -S("lam") * (g_vals + S("@" + vec_atom)) - C("1/2") * S("IP") * S("x")
+    if mcot is not None and mcot.eq(exp):
         Mr.ok(bw.fq, "M pull-back cotangent == -lambda*(g_vals + g_vecs) - 1/2 <gbar_vecs, conj(x)> x")
     else:
-        Mr.bad(bw, stmts["gaccumM"], "the cotangent of M.mm(evecs) is %r; the formula requires %r" % (env["gaccumM"], exp))
+        Mr.bad(bw, stM, "the cotangent of M.mm(evecs) is %r; the formula requires %r" % (mcot, exp))
     # outputs / inputs of the two grads
     grads = [c for c in ast.walk(bw.node) if isinstance(c, ast.Call) and ac.is_autograd_grad(c)]
     sig = sorted((ast.unparse(ac._kw(c, "outputs") or c.args[0]), ast.unparse(ac._kw(c, "inputs") or c.args[1]), ast.unparse(ac._kw(c, "grad_outputs"))) for c in grads)
